@@ -4,6 +4,7 @@ import (
 	"fmt"
 	"go/constant"
 	"go/token"
+	"go/types"
 	"sort"
 	"strings"
 
@@ -19,7 +20,7 @@ func init() {
 		ID: "C17",
 		Explanation: "R1 (effects): every write in the call closures of SevPolicy and TdxPolicy goes to an object allocated during the call (literal, proto.Clone result) — nothing is written through opts.Base or the endorsement. " +
 			"R2 (field whitelist): in package gcetcbendorsement the only fields of check.Policy ever written are Policy, Measurement, TrustedIdKeys, TrustedAuthorKeys (the two key lists only by append to themselves); of checkconfig.Policy only TdQuoteBodyPolicy (only behind its nil test) and of TDQuoteBodyPolicy only AnyMrTd; the literal that builds the default base when the caller gave none is exempt. " +
-			"R3 (ESP): Policy/Measurement are stored only in states Overwrite:true or after the conflict check returned nil; the conflict check returns nil only if each of the two base values was found unset or equal to the endorsed one; SevPolicy cannot return nil without overwrite when the endorsed SVN was found below the base minimum; AnyMrTd is stored only where the base list is known nil, the body policy was absent, or Overwrite is true. " +
+			"R3 (ESP over SevPolicy and every function of the package it reaches): Policy.Policy is stored only on paths where Overwrite is true or a comparison found the base guest policy zero or equal to the endorsed one; Policy.Measurement only where Overwrite is true or the base measurement was found empty or compatible (a bool-valued call over the endorsed measurement and the base one) — wherever those comparisons are written (a check function, a switch, a helper); SevPolicy cannot return nil without overwrite when the endorsed SVN was found below the base minimum; AnyMrTd is stored only where the base list is known nil, the body policy was absent, or Overwrite is true. " +
 			"R4 (slices): Policy ← endorsement GetPolicy(); appended keys ← Bytes of pem.Decode blocks of the endorsement's CA bundle, behind the Type == CERTIFICATE edge. " +
 			"Not covered: field-by-field equality as values; the comparison semantics inside bytes.Equal.",
 		Assumptions: []string{"go/types, go/ssa, VTA call graph", "proto.Clone returns a deep copy", "external callees do not write the base policy"},
@@ -134,6 +135,55 @@ func runC17(c *Ctx) {
 			}
 		}
 	}
+	// the same fields written through a pointer that was put into a table (&policy.TrustedIdKeys kept in a struct and
+	// stored through later): every store through a loaded pointer of the field's type counts as a store to the field
+	for _, f := range c.P.RepoFunctions() {
+		if load.RelPkg(f) != "gcetcbendorsement" || c.isTestFunc(f) {
+			continue
+		}
+		for _, is := range indirectFieldStores(f, func(fa *ssa.FieldAddr) bool {
+			for k := range allowed {
+				i := strings.LastIndex(k, ".")
+				if namedIs(fa.X.Type(), k[:i], k[i+1:]) {
+					return true
+				}
+			}
+			return false
+		}) {
+			fa, st := is.fa, is.st
+			key := ""
+			for k := range allowed {
+				i := strings.LastIndex(k, ".")
+				if namedIs(fa.X.Type(), k[:i], k[i+1:]) {
+					key = k
+				}
+			}
+			nStores++
+			fname := flow.FieldName(fa)
+			written[key[strings.LastIndex(key, "/")+1:]+"."+fname] = true
+			construct := load.FuncName(f) + ":" + key[strings.LastIndex(key, ".")+1:] + "." + fname + " (through a kept pointer)"
+			if !allowed[key][fname] {
+				c.S.Bad("R2", construct, c.pos(st.Pos()), "policy derivation writes a base-policy field outside the documented set {Policy, Measurement, TrustedIdKeys, TrustedAuthorKeys / TdQuoteBodyPolicy.AnyMrTd}")
+				continue
+			}
+			switch fname {
+			case "TrustedIdKeys", "TrustedAuthorKeys":
+				okApp := false
+				if call, ok := st.Val.(*ssa.Call); ok {
+					if bi, ok := call.Call.Value.(*ssa.Builtin); ok && bi.Name() == "append" {
+						if ld, ok := call.Call.Args[0].(*ssa.UnOp); ok && ld.Op == token.MUL && samePointerValue(ld.X, st.Addr) {
+							okApp = true
+						}
+					}
+				}
+				c.S.Check(okApp, "R2", construct, c.pos(st.Pos()), "key list only extended by append to itself", "trusted key list is replaced rather than extended")
+			case "TdQuoteBodyPolicy":
+				c.S.Bad("R2", construct, c.pos(st.Pos()), "the body policy is replaced through a kept pointer: that it was absent cannot be established")
+			default:
+				c.S.OK("R2", construct, c.pos(st.Pos()), "field is in the documented set", false)
+			}
+		}
+	}
 	c.S.Floor("R2", "policy field stores in package gcetcbendorsement", 5, nStores)
 	var wl []string
 	for k := range written {
@@ -143,7 +193,8 @@ func runC17(c *Ctx) {
 	c.S.Note("policy fields written: %v", wl)
 
 	// ---- R3 (SEV) ----
-	isPolicyStore := func(in ssa.Instruction, fields ...string) (string, bool) {
+	var isPolicyStore func(in ssa.Instruction, fields ...string) (string, bool)
+	isPolicyStore = func(in ssa.Instruction, fields ...string) (string, bool) {
 		st, ok := in.(*ssa.Store)
 		if !ok {
 			return "", false
@@ -163,34 +214,32 @@ func runC17(c *Ctx) {
 		}
 		return "", false
 	}
-	// conflict gates: functions of the package with params (*VMSevSnp, *check.Policy, ...) returning only error, containing no policy store
-	gates := map[*ssa.Function]bool{}
+	// stores to the same fields through a kept pointer (see R2)
+	indirect := map[ssa.Instruction][]string{}
 	for _, f := range c.P.RepoFunctions() {
-		if load.RelPkg(f) != "gcetcbendorsement" || c.isTestFunc(f) || f.Signature.Results().Len() != 1 || errIndex(f.Signature) != 0 {
+		if load.RelPkg(f) != "gcetcbendorsement" || c.isTestFunc(f) {
 			continue
 		}
-		hasSev, hasPol := false, false
-		for _, p := range f.Params {
-			if namedIs(p.Type(), epbPkg, "VMSevSnp") {
-				hasSev = true
-			}
-			if namedIs(p.Type(), cpbPkg, "Policy") {
-				hasPol = true
-			}
-		}
-		stores := false
-		for _, b := range f.Blocks {
-			for _, in := range b.Instrs {
-				if _, ok := isPolicyStore(in, "Policy", "Measurement", "TrustedIdKeys", "TrustedAuthorKeys"); ok {
-					stores = true
-				}
-			}
-		}
-		if hasSev && hasPol && !stores {
-			gates[f] = true
+		for _, is := range indirectFieldStores(f, func(fa *ssa.FieldAddr) bool { return namedIs(fa.X.Type(), cpbPkg, "Policy") }) {
+			indirect[is.st] = append(indirect[is.st], flow.FieldName(is.fa))
 		}
 	}
-	c.S.Floor("R3", "conflict-check functions (take endorsement and base policy, return error, store nothing)", 1, len(gates))
+	{
+		direct := isPolicyStore
+		isPolicyStore = func(in ssa.Instruction, fields ...string) (string, bool) {
+			if n, ok := direct(in, fields...); ok {
+				return n, true
+			}
+			for _, n := range indirect[in] {
+				for _, f := range fields {
+					if n == f {
+						return n, true
+					}
+				}
+			}
+			return "", false
+		}
+	}
 	basePolicyGetter := func(name string) func(ssa.Value) bool {
 		return func(v ssa.Value) bool {
 			call, ok := v.(*ssa.Call)
@@ -210,28 +259,42 @@ func runC17(c *Ctx) {
 			return flow.IsFieldLoad(v, epbPkg, "VMSevSnp", name)
 		}
 	}
+	// One path-sensitive pass over SevPolicy and every function of the package it reaches. The comparisons of the base
+	// policy's values with the endorsed ones are events wherever they are written (a separate check function, a
+	// switch in front of the stores, a helper returning bool): a store needs, on its own path, overwrite permission
+	// or the outcome "unset" / "equal" of the comparison for the value it replaces.
 	{
 		const (
-			evGate = iota
-			evStore
+			evStore = iota
 			evSvnLow
+			evPolZero
+			evPolCmp
+			evMeasUnset
+			evMeasCmp
 		)
 		const (
-			bGate uint = iota
-			bSvnLow
+			bSvnLow uint = iota
+			bPolUnset
+			bPolEq
+			bMeasUnset
+			bMeasOk
 		)
-		relevant := c.relevantSet(func(in ssa.Instruction) bool {
-			_, ok := isPolicyStore(in, "Policy", "Measurement")
-			return ok
-		})
-		nst, ngate := 0, 0
+		names := []string{"endorsed SVN below base minimum", "base guest policy unset", "base guest policy equals endorsed", "base measurement unset", "base measurement compatible"}
+		isZeroK := func(v ssa.Value) bool {
+			k, ok := v.(*ssa.Const)
+			return ok && k.Value != nil && k.Value.Kind() == constant.Int && constant.Sign(k.Value) == 0
+		}
+		endorsedMeas := func(v ssa.Value) bool {
+			return sl.Derives(v, sevGetter("Measurements")) || sl.Derives(v, func(x ssa.Value) bool { return flow.IsFieldLoad(x, epbPkg, "VMSevSnp", "Measurements") })
+		}
+		baseMeas := func(v ssa.Value) bool { return sl.Derives(v, basePolicyGetter("GetMeasurement")) }
+		nst, npol, nmeas := 0, 0, 0
 		r := &esp.Rule{Name: "C17.R3"}
-		r.Relevant = func(f *ssa.Function) bool { return relevant[f] && load.RelPkg(f) == "gcetcbendorsement" && !gates[f] }
+		r.Relevant = func(f *ssa.Function) bool { return load.RelPkg(f) == "gcetcbendorsement" && !c.isTestFunc(f) }
 		r.Flag = func(v ssa.Value) (int, bool) {
 			if u, ok := v.(*ssa.UnOp); ok && u.Op == token.MUL && flow.IsFieldLoad(v, gcePkg, "SevPolicyOptions", "Overwrite") {
 				return 0, true
 			}
-			// the conflict check compares the base measurement only for a named VMSA count
 			if u, ok := v.(*ssa.UnOp); ok && u.Op == token.MUL && flow.IsFieldLoad(v, gcePkg, "SevPolicyOptions", "LaunchVmsas") {
 				return 1, true
 			}
@@ -242,37 +305,85 @@ func runC17(c *Ctx) {
 				nst++
 				return []esp.Ev{{ID: evStore, Name: "store Policy." + n, ErrIdx: -1, BoolIdx: -1}}
 			}
-			if call, ok := in.(ssa.CallInstruction); ok && gates[call.Common().StaticCallee()] {
-				ngate++
-				return []esp.Ev{{ID: evGate, Name: "conflict check", ErrIdx: 0, BoolIdx: -1}}
-			}
-			if bo, ok := in.(*ssa.BinOp); ok && (bo.Op == token.LSS || bo.Op == token.GTR) {
-				a, b := bo.X, bo.Y
-				if bo.Op == token.GTR {
-					a, b = b, a
+			switch v := in.(type) {
+			case *ssa.BinOp:
+				switch v.Op {
+				case token.LSS, token.GTR:
+					a, b := v.X, v.Y
+					if v.Op == token.GTR {
+						a, b = b, a
+					}
+					if sl.Derives(a, sevGetter("Svn")) && sl.Derives(b, basePolicyGetter("GetMinimumGuestSvn")) {
+						return []esp.Ev{{ID: evSvnLow, Name: "endorsed SVN < base minimum", ErrIdx: -1, BoolIdx: 0}}
+					}
+				case token.EQL, token.NEQ:
+					bx, by := sl.Derives(v.X, basePolicyGetter("GetPolicy")), sl.Derives(v.Y, basePolicyGetter("GetPolicy"))
+					sx, sy := sl.Derives(v.X, sevGetter("Policy")), sl.Derives(v.Y, sevGetter("Policy"))
+					if (bx && sy) || (by && sx) {
+						npol++
+						return []esp.Ev{{ID: evPolCmp, Name: "base policy " + v.Op.String() + " endorsed policy", ErrIdx: -1, BoolIdx: 0, Data: v.Op}}
+					}
+					if bx && isZeroK(v.Y) {
+						npol++
+						return []esp.Ev{{ID: evPolZero, Name: "base policy " + v.Op.String() + " 0", ErrIdx: -1, BoolIdx: 0, Data: v.Op}}
+					}
+					// len(base measurement) ==/!= 0
+					if call, ok := v.X.(*ssa.Call); ok && isZeroK(v.Y) {
+						if bi, ok := call.Call.Value.(*ssa.Builtin); ok && bi.Name() == "len" && baseMeas(call.Call.Args[0]) {
+							nmeas++
+							return []esp.Ev{{ID: evMeasUnset, Name: "len(base measurement) " + v.Op.String() + " 0", ErrIdx: -1, BoolIdx: 0, Data: v.Op}}
+						}
+					}
 				}
-				if sl.Derives(a, sevGetter("Svn")) && sl.Derives(b, basePolicyGetter("GetMinimumGuestSvn")) {
-					return []esp.Ev{{ID: evSvnLow, Name: "endorsed SVN < base minimum", ErrIdx: -1, BoolIdx: 0}}
+			case *ssa.Call:
+				if v.Type().String() == "bool" && len(v.Call.Args) == 2 {
+					a, b := v.Call.Args[0], v.Call.Args[1]
+					if (endorsedMeas(a) && baseMeas(b)) || (endorsedMeas(b) && baseMeas(a)) {
+						nmeas++
+						return []esp.Ev{{ID: evMeasCmp, Name: "measurement compatibility " + callName(v), ErrIdx: -1, BoolIdx: 0}}
+					}
 				}
 			}
 			return nil
 		}
 		r.Step = func(x *esp.Ctx, s esp.State, ev esp.Ev, ph esp.Phase) (esp.State, string) {
+			if ev.ID == evStore {
+				if ph != esp.AtCall || s.Flag(0) == esp.NonZero {
+					return s, ""
+				}
+				st := fmtState(names, s)
+				if strings.HasSuffix(ev.Name, ".Policy") && !s.Has(bPolUnset) && !s.Has(bPolEq) {
+					return s, "R3: " + ev.Name + " overwritten in state " + st + ": Overwrite is not known true and the base guest policy was found neither unset nor equal to the endorsed one"
+				}
+				if strings.HasSuffix(ev.Name, ".Measurement") && !s.Has(bMeasUnset) && !s.Has(bMeasOk) {
+					return s, "R3: " + ev.Name + " overwritten in state " + st + ": Overwrite is not known true and the base measurement was found neither unset nor compatible with the endorsed one for the named VMSA count"
+				}
+				return s, ""
+			}
+			if ph == esp.AtCall {
+				return s, ""
+			}
+			truth := ph == esp.Ok
 			switch ev.ID {
-			case evGate:
-				if ph == esp.Ok {
-					return s.Set(bGate), ""
-				}
-			case evStore:
-				if ph == esp.AtCall && s.Flag(0) != esp.NonZero && !s.Has(bGate) {
-					return s, "R3: " + ev.Name + " overwritten where Overwrite is not known true and the conflict check has not succeeded"
-				}
-				if ph == esp.AtCall && s.Flag(0) != esp.NonZero && strings.HasSuffix(ev.Name, "Measurement") && s.Flag(1) != esp.NonZero {
-					return s, "R3: " + ev.Name + " written where no VMSA count is known to be named: the conflict check compares the base measurement only for a named count, so on this path a measurement already set in the base policy is replaced unchecked"
-				}
 			case evSvnLow:
-				if ph == esp.Ok {
+				if truth {
 					return s.Set(bSvnLow), ""
+				}
+			case evPolZero:
+				if (ev.Data.(token.Token) == token.EQL) == truth {
+					return s.Set(bPolUnset), ""
+				}
+			case evPolCmp:
+				if (ev.Data.(token.Token) == token.EQL) == truth {
+					return s.Set(bPolEq), ""
+				}
+			case evMeasUnset:
+				if (ev.Data.(token.Token) == token.EQL) == truth {
+					return s.Set(bMeasUnset), ""
+				}
+			case evMeasCmp:
+				if truth {
+					return s.Set(bMeasOk), ""
 				}
 			}
 			return s, ""
@@ -289,103 +400,10 @@ func runC17(c *Ctx) {
 			return "SevPolicy:" + load.FuncName(v.Fn) + ":" + strings.SplitN(strings.TrimPrefix(v.Msg, "R3: "), " ", 3)[1]
 		})
 		c.S.Floor("R3", "stores to Policy.Policy/Measurement reached", 2, nst)
-		c.S.Floor("R3", "conflict-check calls reached", 1, ngate)
+		c.S.Floor("R3", "comparisons of the base guest policy (with 0, with the endorsed policy) reached", 2, npol)
+		c.S.Floor("R3", "comparisons of the base measurement with the endorsed one reached", 1, nmeas)
 		if n == 0 {
 			c.S.OK("R3", "gcetcbendorsement.SevPolicy:gated stores", c.pos(sp.Pos()), fmt.Sprintf("held on %d configurations", e.Configs), true)
-		}
-	}
-	// inside the gates
-	for g := range gates {
-		name := load.FuncName(g)
-		const (
-			bPolUnset uint = iota
-			bPolEq
-			bMeasOk
-		)
-		npol, nmeas := 0, 0
-		r := &esp.Rule{Name: "C17.R3gate"}
-		r.Relevant = func(*ssa.Function) bool { return false }
-		r.Flag = func(v ssa.Value) (int, bool) {
-			if u, ok := v.(*ssa.UnOp); ok && u.Op == token.MUL && flow.IsFieldLoad(v, gcePkg, "SevPolicyOptions", "LaunchVmsas") {
-				return 0, true
-			}
-			// the gate may itself let an overwrite through (the caller's `if !opts.Overwrite` moved inside)
-			if u, ok := v.(*ssa.UnOp); ok && u.Op == token.MUL && flow.IsFieldLoad(v, gcePkg, "SevPolicyOptions", "Overwrite") {
-				return 1, true
-			}
-			return 0, false
-		}
-		r.Match = func(in ssa.Instruction) []esp.Ev {
-			switch v := in.(type) {
-			case *ssa.BinOp:
-				if v.Op != token.EQL && v.Op != token.NEQ {
-					return nil
-				}
-				bx, by := sl.Derives(v.X, basePolicyGetter("GetPolicy")), sl.Derives(v.Y, basePolicyGetter("GetPolicy"))
-				sx, sy := sl.Derives(v.X, sevGetter("Policy")), sl.Derives(v.Y, sevGetter("Policy"))
-				if (bx && sy) || (by && sx) {
-					npol++
-					return []esp.Ev{{ID: 1, Name: "base policy " + v.Op.String() + " endorsed policy", ErrIdx: -1, BoolIdx: 0, Data: v.Op}}
-				}
-				if k, ok := v.Y.(*ssa.Const); ok && bx && k.Value != nil && k.Value.Kind() == constant.Int && constant.Sign(k.Value) == 0 {
-					npol++
-					return []esp.Ev{{ID: 0, Name: "base policy " + v.Op.String() + " 0", ErrIdx: -1, BoolIdx: 0, Data: v.Op}}
-				}
-			case *ssa.Call:
-				if v.Type().String() == "bool" && len(v.Call.Args) == 2 {
-					a, b := v.Call.Args[0], v.Call.Args[1]
-					am := sl.Derives(a, sevGetter("Measurements")) || sl.Derives(a, func(x ssa.Value) bool { return flow.IsFieldLoad(x, epbPkg, "VMSevSnp", "Measurements") })
-					bm := sl.Derives(b, basePolicyGetter("GetMeasurement"))
-					am2 := sl.Derives(b, func(x ssa.Value) bool { return flow.IsFieldLoad(x, epbPkg, "VMSevSnp", "Measurements") })
-					bm2 := sl.Derives(a, basePolicyGetter("GetMeasurement"))
-					if (am && bm) || (am2 && bm2) {
-						nmeas++
-						return []esp.Ev{{ID: 2, Name: "measurement compatibility " + callName(v), ErrIdx: -1, BoolIdx: 0}}
-					}
-				}
-			}
-			return nil
-		}
-		r.Step = func(x *esp.Ctx, s esp.State, ev esp.Ev, ph esp.Phase) (esp.State, string) {
-			if ph == esp.AtCall {
-				return s, ""
-			}
-			truth := ph == esp.Ok
-			switch ev.ID {
-			case 0:
-				if (ev.Data.(token.Token) == token.EQL) == truth {
-					return s.Set(bPolUnset), ""
-				}
-			case 1:
-				if (ev.Data.(token.Token) == token.EQL) == truth {
-					return s.Set(bPolEq), ""
-				}
-			case 2:
-				if truth {
-					return s.Set(bMeasOk), ""
-				}
-			}
-			return s, ""
-		}
-		r.AtReturn = func(x *esp.Ctx, s esp.State, rets []esp.Abs) string {
-			if rets[0] == esp.NonZero || s.Flag(1) == esp.NonZero {
-				return ""
-			}
-			if !s.Has(bPolUnset) && !s.Has(bPolEq) {
-				return "R3: the conflict check may pass although the base guest policy is set and was not found equal to the endorsed one"
-			}
-			if s.Flag(0) != esp.Zero && !s.Has(bMeasOk) {
-				return "R3: the conflict check may pass for a named VMSA count although the base measurement was not found compatible with the endorsed one"
-			}
-			return ""
-		}
-		e := c.engine(r)
-		e.Run(g, esp.State{})
-		n := c.reportEngine(e, "R3", func(v *esp.Violation) string { return name + ":conflict check" })
-		c.S.Floor("R3", "guest-policy comparisons in "+name, 2, npol)
-		c.S.Floor("R3", "measurement comparisons in "+name, 1, nmeas)
-		if n == 0 {
-			c.S.OK("R3", name+":conflict check", c.pos(g.Pos()), fmt.Sprintf("nil only after unset-or-equal for both values (%d configurations)", e.Configs), true)
 		}
 	}
 
@@ -476,6 +494,9 @@ func runC17(c *Ctx) {
 								return !crossed
 							}, nil)
 						}
+					}
+					if len(indirect[in]) > 1 {
+						crossed = false // the store goes through a pointer that may be either list's: a condition mentioning both addresses selects the list, it is no membership guard
 					}
 					c.S.Check(!crossed, "R4", load.FuncName(f)+":"+n+" guard", c.pos(st.Pos()), "no guard of this append consults the sibling key list", "the append to "+n+" is guarded by a test on "+other+": a key the endorsement carries is left out of "+n+" when it happens to be in the other list")
 					c.S.Check(okSrc, "R4", load.FuncName(f)+":"+n+" source", c.pos(st.Pos()), "appended key is a PEM block of the endorsement's CA bundle", "appended trusted key does not come from the endorsement's CA bundle")
@@ -585,4 +606,77 @@ func (c *Ctx) pemBlockProvenance(sl *flow.Slicer, elem ssa.Value, b *ssa.BasicBl
 		}
 	}
 	return src, false
+}
+
+type indStore struct {
+	st *ssa.Store
+	fa *ssa.FieldAddr
+}
+
+// indirectFieldStores: for every field address of f accepted by match that f puts into memory (kept in a struct, a
+// table, a variable), the stores of f through a pointer of that field's type that was read back (a load, a field of a
+// loaded struct, a φ): each is a possible store to that field.
+func indirectFieldStores(f *ssa.Function, match func(*ssa.FieldAddr) bool) []indStore {
+	var kept []*ssa.FieldAddr
+	for _, b := range f.Blocks {
+		for _, in := range b.Instrs {
+			fa, ok := in.(*ssa.FieldAddr)
+			if !ok || fa.Referrers() == nil || !match(fa) {
+				continue
+			}
+			for _, r := range *fa.Referrers() {
+				if st, ok := r.(*ssa.Store); ok && st.Val == ssa.Value(fa) {
+					kept = append(kept, fa)
+					break
+				}
+			}
+		}
+	}
+	if len(kept) == 0 {
+		return nil
+	}
+	var out []indStore
+	for _, b := range f.Blocks {
+		for _, in := range b.Instrs {
+			st, ok := in.(*ssa.Store)
+			if !ok {
+				continue
+			}
+			switch st.Addr.(type) {
+			case *ssa.UnOp, *ssa.Field, *ssa.Phi, *ssa.Extract, *ssa.Lookup, *ssa.Index:
+			default:
+				continue
+			}
+			for _, fa := range kept {
+				if types.Identical(st.Addr.Type(), fa.Type()) {
+					out = append(out, indStore{st, fa})
+				}
+			}
+		}
+	}
+	return out
+}
+
+// samePointerValue: two reads of one pointer (the same value, the same field of the same struct value, or two loads
+// of the same address).
+func samePointerValue(a, b ssa.Value) bool {
+	if a == b {
+		return true
+	}
+	if fa, ok := a.(*ssa.Field); ok {
+		if fb, ok := b.(*ssa.Field); ok {
+			return fa.X == fb.X && fa.Field == fb.Field
+		}
+	}
+	if la, ok := a.(*ssa.UnOp); ok && la.Op == token.MUL {
+		if lb, ok := b.(*ssa.UnOp); ok && lb.Op == token.MUL {
+			if la.X == lb.X {
+				return true
+			}
+			xa, ok1 := la.X.(*ssa.FieldAddr)
+			xb, ok2 := lb.X.(*ssa.FieldAddr)
+			return ok1 && ok2 && xa.X == xb.X && xa.Field == xb.Field
+		}
+	}
+	return false
 }
